@@ -540,3 +540,8 @@ _add(
         "C10.6",
     ),
 )
+_add(
+    "C37",
+    m("rename-ignores-task-identity", T, "        if task is None or self._tasks.get(old_name) is task:\n", "        if True:\n", "C37.5"),
+    m("wraps-task-renames-by-name-only", T, "new_namespace=new_namespace, task=task_\n", "new_namespace=new_namespace\n", "C37.5"),
+)
